@@ -1009,7 +1009,7 @@ func oracleCdx(op M, res any, exec func(M) any) []Finding {
 	d := op["doc"].(M)
 	v := int(asInt(op["v"]))
 	// C03 looks at the written bytes and at one write/read pass, whatever the operation was
-	if docWF(d) && d["meta"] != nil && v >= 4 {
+	if docWF(d) && d["meta"] != nil {
 		if raw, err := WriteDoc(DocOf(d), cdxFormat(v), 2); err == nil {
 			for _, m := range cdxCompleteness(d, raw) {
 				add("C03", "%s", m)
